@@ -163,7 +163,7 @@ theorem replicate_cmp {a e x : Msg} (hne : a ≠ e) : ∀ (k j : Nat) (w' : List
     · rintro ⟨h, _⟩; exact absurd h hne
     · rintro (⟨_, _, h⟩ | ⟨_, h, _⟩) <;> omega
   | k + 1, j + 1, w' => by
-    have := replicate_cmp hne k j w'
+    have := replicate_cmp (x := x) hne k j w'
     simp only [List.replicate_succ, List.cons_append, List.cons.injEq, true_and]
     rw [this]
     constructor
@@ -201,11 +201,11 @@ theorem repThenExit_lang (G : Grammar) (a e : Msg) (min : Nat) (max : Option Nat
     iterations the body `a` can follow iff a further iteration stays within `max`, and the exit `e`
     can follow iff `k` is within `[min,max]`.  In particular after the `max`-th iteration the body is
     not a continuation and before the `min`-th the exit is not. -/
-theorem C19_rep_bound_respected (G : Grammar) (a e : Msg) (hne : a ≠ e) (min : Nat) (max : Option Nat)
+theorem C19_rep_bound_respected (G : Grammar) (a e : Msg) (hne : a ≠ e) (lo : Nat) (hi : Option Nat)
     (k : Nat) :
-    (Cont G (repThenExit a e min max) (List.replicate k a) a ↔
-        ∀ mx, max = some mx → k < mx ∧ min ≤ mx) ∧
-    (Cont G (repThenExit a e min max) (List.replicate k a) e ↔ inBounds min max k) := by
+    (Cont G (repThenExit a e lo hi) (List.replicate k a) a ↔
+        ∀ mx, hi = some mx → k < mx ∧ lo ≤ mx) ∧
+    (Cont G (repThenExit a e lo hi) (List.replicate k a) e ↔ inBounds lo hi k) := by
   constructor
   · unfold Cont
     simp only [repThenExit_lang]
@@ -218,12 +218,15 @@ theorem C19_rep_bound_respected (G : Grammar) (a e : Msg) (hne : a ≠ e) (min :
         have h2 := hj.2 mx hmx
         omega
     · intro h
-      refine ⟨List.replicate (Nat.max min (k + 1) - k - 1) a ++ [e], Nat.max min (k + 1), ?_, ?_⟩
-      · refine ⟨Nat.le_max_left _ _, ?_⟩
+      have h1 : lo ≤ Nat.max lo (k + 1) := Nat.le_max_left _ _
+      have h2 : k + 1 ≤ Nat.max lo (k + 1) := Nat.le_max_right _ _
+      have h3 : ∀ mx, hi = some mx → Nat.max lo (k + 1) ≤ mx := by
         intro mx hmx
         have := h mx hmx
         exact Nat.max_le.2 ⟨this.2, this.1⟩
-      · exact (replicate_cmp hne k _ _).2 (Or.inr ⟨rfl, by have := Nat.le_max_right min (k + 1); omega, rfl⟩)
+      generalize Nat.max lo (k + 1) = J at h1 h2 h3
+      refine ⟨List.replicate (J - k - 1) a ++ [e], J, ⟨h1, h3⟩, ?_⟩
+      exact (replicate_cmp hne k _ _).2 (Or.inr ⟨rfl, by omega, rfl⟩)
   · unfold Cont
     simp only [repThenExit_lang]
     constructor
